@@ -74,7 +74,7 @@ for k in ['k1','k2','k3','k4','k5']:
         return '['+'; '.join(str(x) for x in f[:n])+']'
     ws=sorted(workers)
     wtxt=';\n     '.join('{| w_id := %d; w_res := %s; w_free := %s; w_assigned := [%s]; w_blocked := []; w_term := None |}'%(w,rvec(u),free(w,u),'; '.join(str(trq[t]) for t,ww in busy if ww==w)) for w,u in ws)
-    ctxt=';\n     '.join('{| rc_entries := [%s]; rc_min_time := 0 |}'%('; '.join('(%d, %d)'%e for e in c)) for c in classes)
+    ctxt=';\n     '.join('{| rc_entries := [%s]; rc_min_time := 0; rc_all := [] |}'%('; '.join('(%d, %d)'%e for e in c)) for c in classes)
     ttxt='; '.join('(%d, %d, (%d)%%Z)'%t for t in tasks if t[0] not in busyt)
     out.append('(** ** %s (corpus/sched/%s.trace) *)'%(k.upper(),k))
     out.append('Definition %s_inst : inst :=\n  {| i_nres := %d; i_now := 0;\n     i_workers :=\n    [%s];\n     i_classes :=\n    [%s];\n     i_queues := mk_queues %d [%s] |}.'%(k,nres,wtxt,ctxt,len(classes),ttxt))
